@@ -66,15 +66,25 @@ Qed.
 Lemma inv_emit_g e : INV (emit_g e). Proof. intros s; constructor; cbn; auto using sub_nil. Qed.
 Lemma inv_emit_u e : INV (emit_u e). Proof. intros s; constructor; cbn; auto using sub_nil. Qed.
 Lemma inv_get_ts : INV get_ts. Proof. intros s; constructor; cbn; auto using sub_nil. Qed.
-Lemma inv_mark_nf : INV mark_nf. Proof. intros s; constructor; cbn; auto using sub_nil; discriminate. Qed.
-Lemma inv_mark_reg : INV mark_reg. Proof. intros s; constructor; cbn; auto using sub_nil; discriminate. Qed.
 Lemma inv_mark_dirty : INV mark_dirty. Proof. intros s; constructor; cbn; auto using sub_nil. Qed.
-Lemma inv_set_failed m : INV (set_failed m).
+Lemma inv_signal k m id : INV (signal k m id).
+Proof. intros s; unfold signal; destruct k; constructor; cbn; auto using sub_nil; discriminate. Qed.
+Lemma inv_register id f : INV (register id f).
 Proof. intros s; constructor; cbn; auto using sub_nil; discriminate. Qed.
-Lemma inv_upd_reg f : (forall t, failed (f t) = failed t) -> INV (upd_reg f).
-Proof. intros H s; constructor; cbn; auto using sub_nil; discriminate. Qed.
-Lemma inv_upd_cleanup f : (forall t, failed (f t) = failed t) -> INVb false (upd_cleanup f).
-Proof. intros H s; constructor; cbn; auto using sub_nil; discriminate. Qed.
+Lemma inv_context_call : INV context_call.
+Proof.
+  intros s; unfold context_call. destruct (ctx (ts s)); [|destruct (cleaning (ts s))];
+    constructor; cbn; auto using sub_nil; discriminate.
+Qed.
+Lemma inv_begin_cleanup : INVb false begin_cleanup.
+Proof. intros s; constructor; cbn; auto using sub_nil; discriminate. Qed.
+Lemma inv_end_cleanup : INVb false end_cleanup.
+Proof. intros s; constructor; cbn; auto using sub_nil; discriminate. Qed.
+Lemma inv_pop_cleanup : INVb false pop_cleanup.
+Proof.
+  intros s; unfold pop_cleanup. destruct (cleanups (ts s)) as [|[id c] rest];
+    constructor; cbn; auto using sub_nil; discriminate.
+Qed.
 Lemma inv_failOnError l : INV (failOnError l).
 Proof. intros s. unfold failOnError. destruct (failed (ts s)); constructor; cbn; auto using sub_nil. Qed.
 
@@ -127,7 +137,7 @@ Qed.
 Ltac inv_auto :=
   repeat first
     [ apply inv_ret | apply inv_throw | apply inv_emit_g | apply inv_emit_u | apply inv_get_ts
-    | apply inv_set_failed | apply inv_upd_reg; reflexivity | apply inv_mark_nf | apply inv_mark_reg | apply inv_mark_dirty | apply inv_failOnError | apply inv_drawBits
+    | apply inv_signal | apply inv_register | apply inv_context_call | apply inv_mark_dirty | apply inv_failOnError | apply inv_drawBits
     | apply inv_group | apply inv_group_d
     | apply inv_bind; [|intros]
     | assumption
@@ -207,10 +217,8 @@ Section InterpInv.
   Lemma inv_cleanup_loop : forall fuel last, INVb false (cleanup_loop crun fuel last).
   Proof.
     induction fuel as [|f IH]; intros last; cbn [cleanup_loop]; [weak|].
-    apply inv_bind; [weak|intros t].
-    destruct (cleanups t) as [|[id c] rest]; [weak|].
-    apply inv_bind; [apply inv_upd_cleanup; reflexivity|intros _].
-    apply inv_bind; [weak|intros _].
+    apply inv_bind; [apply inv_pop_cleanup|intros c].
+    destruct c as [c|]; [|weak].
     apply inv_try; [apply INV_weaken, Hcrun|].
     intros [v|e]; [apply IH|].
     destruct e; try (apply inv_bind; [weak|intros; apply IH]).
@@ -220,11 +228,9 @@ Section InterpInv.
 
   Lemma inv_cleanup : INVb false (cleanup LF crun).
   Proof.
-    unfold cleanup. apply inv_bind; [weak|intros t].
-    apply inv_bind; [destruct (ctx t); weak|intros _].
-    apply inv_bind; [apply inv_upd_cleanup; reflexivity|intros _].
+    unfold cleanup. apply inv_bind; [apply inv_begin_cleanup|intros _].
     apply inv_bind; [apply inv_cleanup_loop|intros r].
-    apply inv_bind; [apply inv_upd_cleanup; reflexivity|intros _]. weak.
+    apply inv_bind; [apply inv_end_cleanup|intros _]. weak.
   Qed.
 
   Lemma inv_custom_end r : INV (custom_end r).
@@ -326,10 +332,10 @@ Section InterpInv.
     - (* PDraw *) apply inv_bind; [unfold gval; inv_auto|intros v].
       apply inv_bind; [|intros _; apply H0].
       intros s; constructor; cbn; auto using sub_nil.
-    - (* PFail *) apply inv_bind; [inv_auto|intros _]. destruct kind; inv_auto.
+    - (* PFail *) apply inv_bind; [apply inv_signal|intros _]. destruct kind; inv_auto.
     - (* PSkip *) inv_auto.
     - (* PCleanup *) inv_auto.
-    - (* PContext *) apply inv_bind; [inv_auto|intros t]. destruct (ctx t); [|destruct (cleaning t)]; inv_auto; apply H.
+    - (* PContext *) apply inv_bind; [apply inv_context_call|intros b]. apply H.
     - (* PFailed *) apply inv_bind; [inv_auto|intros t]. apply inv_bind; [inv_auto|intros _]. apply H.
     - (* PLog *) inv_auto.
     - (* PRepeat *) destruct nacts; [apply H1|].
